@@ -89,6 +89,8 @@ def contracts(c, args, ctx):
     if re.search(r"Snafu(::<.*>)?::fail(::<.*>)?$", c): return core.Enum("Err", [("opaque", c[:50])])
     if re.search(r"as ResultExt<.*>>::context::<", c):
         r = args[0]; return r if r.variant == "Ok" else core.Enum("Err", [("opaque", "context")])
+    if re.search(r"as OptionExt<.*>>::(with_)?context::<", c):
+        o = d(args[0]); return core.Enum("Ok", [o.f[0]]) if o.variant == "Some" else core.Enum("Err", [("opaque", "context")])
     if re.search(r"as FromResidual<.*>>::from_residual$", c):
         r = d(args[0]); return core.Enum("Err", list(r.f))
     if re.fullmatch(r"Vec::<pdu::PDataValue>::(new|with_capacity)", c): return core.VecV([])
